@@ -2441,3 +2441,121 @@ Proof.
       - intros b _ []. }
     destruct Hwf as [H1 H2]. split; cbn [ti_blocks ti_txs]; assumption.
 Qed.
+
+(* chain_inv looks only at these fields *)
+Definition same_core (t t' : tower) : Prop :=
+  gk_height t = gk_height t' /\ db_trks t = db_trks t' /\ r_index t = r_index t' /\
+  car_memo t = car_memo t' /\ reorged t = reorged t'.
+
+Lemma chain_inv_core t t' : same_core t t' -> chain_inv t -> chain_inv t'.
+Proof.
+  intros [Hh [Hk [Hi [Hm Hr]]]] [C1 C2 C3 C4].
+  constructor; unfold heights_ok, memo_ok in *; rewrite <- ?Hh, <- ?Hk, <- ?Hi, <- ?Hm, <- ?Hr; assumption.
+Qed.
+
+Lemma memo_ok_send sc t x : memo_ok t -> memo_ok (snd (send_transaction sc t x)).
+Proof.
+  intros H. unfold send_transaction. destruct (aget (car_memo t) x) eqn:Em; [exact H|].
+  cbn [snd]. intros y hh. cbn [car_memo set_car_memo log_rpc set_rpc_log aget].
+  destruct (N.eqb y x); [|apply H].
+  destruct (send_status_cases t (snd (script_get sc x))) as [Hs|[Hs|[c Hs]]]; rewrite Hs; discriminate.
+Qed.
+
+Lemma chain_inv_stableW : StableW chain_inv.
+Proof.
+  constructor.
+  - intros t t' [_ [_ [Hh [_ [_ [Hk [Hi [_ [Hm Hr]]]]]]]]]. apply chain_inv_core. repeat split; assumption.
+  - intros sc t x [C1 C2 C3 C4]. pose proof (memo_ok_send sc t x C3) as Hm.
+    destruct (send_spec sc t x) as [m [l [Es _]]]. rewrite Es in *. cbn [snd] in *.
+    constructor; try assumption.
+  - intros t us [C1 C2 C3 C4]. constructor; try assumption.
+    intros k Hk. unfold db_delete_apps in Hk. cbn [db_trks set_db_trks set_db_apps] in Hk.
+    apply filter_In in Hk. apply C1. tauto.
+  - intros t k [C1 C2 C3 C4] _ _ Hprov. constructor; try assumption.
+    intros k' Hk'. unfold p_insert_trk in Hk'. cbn [db_trks set_db_trks] in Hk'.
+    apply in_app_or in Hk'. destruct Hk' as [Hk'|[Hk'|[]]]; [apply C1; exact Hk'|]. subst k'.
+    intros Hc _. cbn [gk_height p_insert_trk set_db_trks].
+    destruct (Hprov Hc) as [[bh [z [Hz Hh]]]|[x Hx]].
+    + apply get_height_le_tip in Hz. lia.
+    + exfalso. exact (C3 _ _ Hx).
+Qed.
+
+(* abort sites of the loops the responder runs after check_confirmations *)
+Section Sites.
+  Context (S : site -> Prop) (HSite : forall s, s <> S_r_confirmations_underflow -> S s).
+
+  Lemma refund_loop_sites us : forall t, pres2 (fun _ => True) S (refund_loop t us).
+  Proof.
+    induction us as [|u us IH]; intros t; cbn [refund_loop]; [exact I|].
+    destruct (find_app (db_apps t) u) as [a|]; [|apply HSite; discriminate].
+    destruct (gk_get t (a_user a)) as [ui|]; [|apply HSite; discriminate].
+    destruct (u32_add _ _); [apply IH|apply HSite; discriminate].
+  Qed.
+
+  Lemma reorged_loop_sites sc h us : forall t rej, pres2 (fun _ => True) S (reorged_loop sc h us t rej).
+  Proof.
+    induction us as [|u us IH]; intros t rej; [exact I|]. rewrite reorged_loop_cons.
+    destruct (find_trk (db_trks t) u) as [k|]; [|apply IH].
+    destruct (send_transaction sc t (t_dispute k)) as [s t1].
+    destruct (is_confirmed s); [apply HSite; discriminate|].
+    destruct (status_rejected s); [apply IH|].
+    destruct (send_transaction sc t1 (t_penalty k)) as [s2 t2]. destruct (status_rejected s2); apply IH.
+  Qed.
+
+  Lemma stale_loop_sites sc h us : forall t rej, pres2 (fun _ => True) S (stale_loop sc h us t rej).
+  Proof.
+    induction us as [|u us IH]; intros t rej; [exact I|]. rewrite stale_loop_cons.
+    destruct (find_trk (db_trks t) u) as [k|]; [|apply HSite; discriminate].
+    destruct (send_transaction sc t (t_penalty k)) as [s t1]. apply IH.
+  Qed.
+
+  Lemma site_of_pres2 {A} (r : res A) s t : pres2 (fun _ => True) S r -> r = Abort s t -> S s.
+  Proof. intros H E. rewrite E in H. exact H. Qed.
+
+  (* the API procedures *)
+  Lemma store_appointment_chain t a : chain_inv t -> pres2 chain_inv S (w_store_appointment t a).
+  Proof.
+    intros H. unfold w_store_appointment. destruct (find_app (db_apps t) (app_uuid a)).
+    - cbn [pres2]. eapply chain_inv_core; [|exact H]. repeat split.
+    - destruct (amem (db_users t) (a_user a)); [|apply HSite; discriminate].
+      cbn [pres2]. eapply chain_inv_core; [|exact H]. repeat split.
+  Qed.
+
+  Lemma store_triggered_chain sc t a d : chain_inv t -> pres2 chain_inv S (w_store_triggered sc t a d).
+  Proof.
+    intros H. unfold w_store_triggered. destruct (decrypt (a_blob a) d) as [p|].
+    - apply pres2_bind; [apply store_appointment_chain; exact H|]. intros _ t1 H1.
+      apply pres2_bind; [apply (handle_breach_presW _ chain_inv_stableW S HSite); exact H1|]. intros s t2 H2.
+      destruct (status_rejected s); [|exact H2]. unfold gk_delete_appointments. cbn [pres2].
+      apply (sw_delete _ chain_inv_stableW). exact H2.
+    - destruct (find_app (db_apps t) (app_uuid a)); [|exact H]. unfold gk_delete_appointments. cbn [pres2].
+      apply (sw_delete _ chain_inv_stableW). exact H.
+  Qed.
+
+  Lemma add_appointment_chain sc t signer loc b delay sig :
+    chain_inv t -> pres2 chain_inv S (w_add_appointment sc t signer loc b delay sig).
+  Proof.
+    intros H. unfold w_add_appointment.
+    destruct (authenticate t signer) as [u|]; [|exact H].
+    destruct (gk_get t u) as [ui|] eqn:Eg; [|apply HSite; discriminate].
+    destruct (N.leb (u_expiry ui) (gk_height t)); [exact H|].
+    destruct (find_trk (db_trks t) (loc, u)); [exact H|].
+    apply pres2_bind.
+    - unfold gk_add_update_appointment. rewrite Eg.
+      match goal with |- context [if ?c then _ else _] => destruct c end; cbn [pres2]; [|exact H].
+      eapply chain_inv_core; [|exact H]. repeat split.
+    - intros charged t1 H1. destruct charged as [av|]; [|exact H1].
+      apply pres2_bind; [|intros _ t2 H2; exact H2].
+      destruct (ti_get (w_cache t1) loc); [apply store_triggered_chain|apply store_appointment_chain]; exact H1.
+  Qed.
+
+  Lemma add_update_user_chain t u : chain_inv t -> pres2 chain_inv S (gk_add_update_user t u).
+  Proof.
+    intros H. unfold gk_add_update_user. destruct (gk_get t u) as [ui|].
+    - destruct (u32_add (u_slots ui) (c_slots (cfg t))); cbn [pres2]; [|exact H].
+      eapply chain_inv_core; [|exact H]. repeat split.
+    - destruct (u32_add (gk_height t) (c_duration (cfg t))); [|apply HSite; discriminate].
+      destruct (amem (db_users t) u); [apply HSite; discriminate|]. cbn [pres2].
+      eapply chain_inv_core; [|exact H]. repeat split.
+  Qed.
+End Sites.
